@@ -83,6 +83,7 @@ def C08():
                 checker_cmd="bin/check C08")
     units = _lib_units()
     chk.units = [u.name for u in units]
+    _stateless(chk)   # whether two grids are "the same grid" is a function of their points only: no cache of earlier verdicts
     ents = r_grd.run(chk, units)
     chk.floor("R-GRD.a", len(ents), 14, "entry points with >=2 grid-carrying inputs")
     nf = r_grd.forwarding(chk, units + [F.load("cases_off")])
@@ -144,6 +145,8 @@ def C13():
     nmax = 8 if C.tier() == "thorough" else 6
     names = ["dbl_off", "dbl_on"] if C.tier() == "thorough" else ["dbl_off"]
     total = 0
+    _stateless(chk)   # the algebra's results are functions of the operands' grids and windows only (first: a later engine
+    #                   leaving the fragment must not hide a cache of earlier verdicts)
     for n in names:
         u = F.load(n)
         chk.units.append(n)
@@ -212,7 +215,10 @@ def _expr_ownership(chk, fwd=False):
     _ro.api_returns(chk, units, files=layer)
     _ro.api_params(chk, units, files=layer)
     _ro.borrowed_shared(chk, units, scope=lambda f: f.in_lib() and layer(f.decl.get("pfile", "")))
-    need = ["R-OWN.field", "R-LIFE.ret", "R-API.ret", "R-API.param", "R-OWN.borrow"]
+    # an expression object / form built from a NAMED operator copies it: a forwarding constructor must not move from it
+    from . import r_small as _rs
+    _rs.r_forward_move(chk, units, scope=lambda f: f.in_lib() and layer(f.decl.get("pfile", "")))
+    need = ["R-OWN.field", "R-LIFE.ret", "R-API.ret", "R-API.param", "R-OWN.borrow", "R-OWN.fwdmove"]
     if fwd:
         n = _rg.forwarding(chk, units)
         chk.floor("R-GRD.fwd", n, 4, "member operators of compound operators")
@@ -577,6 +583,10 @@ def C17():
         u = F.load(n)
         chk.units.append(n)
         total += r_reg.run_jobs(chk, u, "R-REG.quad", _ops_jobs("quadrature_suite", nmax))
+        # the analytic side of the comparison: a polynomial weight of degree d is the operator X<d>, whose re-expansion uses
+        # the binomial table - wrong entries (e.g. a truncating integer formula, exact up to some n only) break the equality
+        total += r_reg.run_jobs(chk, u, "R-REG.const", [("bsv.r_reg_ops", "constant_table_suite", dict(nmax=9))])
+        total += r_reg.run_jobs(chk, u, "R-REG.kernel", _kernel_jobs(("pos",)))
     chk.note("regions_evaluated", total)
     chk.exhaustive = True
     chk.floor("R-REG.quad", chk.rules["R-REG.quad"]["instances"], 2, "quadrature cases")
@@ -898,6 +908,14 @@ def C14():
     r_own.api_params(chk, units)
     r_own.borrowed_shared(chk, units + [F.load("cases_off")])
     r_own.returned_references(chk, units)
+    # operands handed over as named objects are never moved from (forwarding references go through std::forward);
+    # decided on the instantiations from lvalues (drivers/drv_lvalue.h) as well
+    from . import r_small as _rs
+    try:
+        fm_units = units + [F.load("cases_off"), F.load("lvalue")]
+    except F.ExtractError:
+        fm_units = units + [F.load("cases_off")]   # the lvalue driver not compiling is reported by C05-C07 (R-OWN.lvalue)
+    _rs.r_forward_move(chk, fm_units, scope=lambda f: f.in_lib())
     r_grd.run(chk, units)
     nsmall = 4 if C.tier() == "thorough" else 3
     lib, cases = _broad_jobs(nsmall)
@@ -911,7 +929,7 @@ def C14():
     chk.floor("R-OWN.iface", chk.rules["R-OWN.iface"]["instances"], 60, "public functions")
     chk.floor("R-OWN.field", chk.rules["R-OWN.field"]["instances"], 10, "data members")
     from . import controls
-    controls.require(chk, ['R-OWN.mutable', 'R-OWN.cast', 'R-OWN.field', 'R-OWN.iface', 'R-OWN.commit', 'R-GRD.a',
+    controls.require(chk, ['R-OWN.fwdmove', 'R-OWN.mutable', 'R-OWN.cast', 'R-OWN.field', 'R-OWN.iface', 'R-OWN.commit', 'R-GRD.a',
                             'R-API.ret', 'R-LIFE.ret', 'R-API.param', 'R-OWN.borrow'])
     return chk
 
